@@ -36,6 +36,10 @@ CHECKS = {
    technique="deterministic simulation with fault injection on a simulated disk: the real writer's byte stream is torn at every byte (crash / full disk / kill), blocks are lost, every header/table field is corrupted from a value table, payload bits are flipped; the real reader opens every variant",
    text="crash points are enumerated completely per file (every strict prefix up to 4 KiB), every single-field corruption from a value table, seeded block loss and payload damage; files (writer call sequences) are sampled",
    note="trusted: the independent struct-level parser in checks/c10.py decides the named inconsistencies; a torn write leaves a prefix; undetectable (mutually consistent) damage is judged for totality only"),
+ "C13": dict(engine="historysim", category="exploration", design="5.5", timeout=(400, 2700),
+   technique="deterministic simulation of call histories with fault injection: seeded histories of assemble calls in one process (fresh fork per history) with failing inputs, interrupts made pending at a chosen bytecode instruction, I/O errors at the k-th file operation and stl mtime jumps; every successful call is compared byte-for-byte with a fresh interpreter (other hash seed, other directory)",
+   text="seeded exploration of histories (2-10 operations; the last one collides with an earlier one: same program other width / other warning mode / same key after a failure or an interrupted call); the parser's process-global state, the stl-prefix cache and the recursion limit are never reset inside a history",
+   note="trusted: the fresh-interpreter result is the function value (memoised per configuration and source-tree hash); corpus of 12 valid and 11 failing programs"),
  "C14": dict(engine="storagesim", category="fault_enumeration", design="5.6", timeout=(300, 2400),
    technique="deterministic simulation with fault injection on a simulated disk: every file operation of a recorded assemble() call fails in turn (OSError, short write), the process dies after every byte of the .fjm, an interrupt becomes pending at seeded instructions of the create-binary stage",
    text="ONLY the crash-consistency clause of C14 is claimed (a failed assembly never leaves behind an output file that loads); fault plans are enumerated per sampled call. The clauses 'specific exception for every source text' and 'never hangs' quantify over inputs only and are not claimed",
